@@ -318,6 +318,7 @@ pub fn proc_replay(prop: &str, seed: u64, run: u64, v: Violation, plan: ProcPlan
         c14: None,
         proc: Some(plan),
         minimised: false,
+        build: String::new(),
         note: String::new(),
     }
 }
